@@ -23,6 +23,8 @@ pub enum Op {
     Exists { path: String },
     Delete { path: String },
     SyncDir,
+    /// a read through a file handle (only when read points are enabled)
+    Read { path: String },
     Marker(String),
 }
 
@@ -39,6 +41,7 @@ impl Op {
             Op::Exists { .. } => "exists",
             Op::Delete { .. } => "delete",
             Op::SyncDir => "sync_dir",
+            Op::Read { .. } => "read",
             Op::Marker(_) => "marker",
         }
     }
@@ -52,6 +55,7 @@ impl Op {
             | Op::AtomicRead { path }
             | Op::OpenRead { path }
             | Op::Exists { path }
+            | Op::Read { path }
             | Op::Delete { path } => Some(path),
             _ => None,
         }
@@ -113,6 +117,8 @@ struct Control {
     op_count: usize,
     per_thread: BTreeMap<String, usize>,
     log_enabled: bool,
+    /// reads through file handles are storage operations too (fault / gate points, logged)
+    read_points: bool,
 }
 
 struct Inner {
@@ -192,6 +198,7 @@ impl SimDirectory {
                     op_count: 0,
                     per_thread: BTreeMap::new(),
                     log_enabled: true,
+            read_points: false,
                 }),
                 watch: WatchCallbackList::default(),
             }),
@@ -220,6 +227,10 @@ impl SimDirectory {
     }
     pub fn set_short_write(&self, s: ShortWrite) {
         self.inner.ctl.lock().unwrap().short_write = s;
+    }
+    /// makes every read through a file handle a storage operation (off by default: reads are served from memory)
+    pub fn set_read_points(&self, on: bool) {
+        self.inner.ctl.lock().unwrap().read_points = on;
     }
     pub fn set_log_enabled(&self, on: bool) {
         self.inner.ctl.lock().unwrap().log_enabled = on;
@@ -318,6 +329,34 @@ impl SimDirectory {
     }
 }
 
+/// file handle whose reads can be gated / fault-injected
+struct SimFile {
+    dir: SimDirectory,
+    path: String,
+    data: OwnedBytes,
+}
+
+impl std::fmt::Debug for SimFile {
+    fn fmt(&self, f: &mut std::fmt::Formatter) -> std::fmt::Result {
+        write!(f, "SimFile({}, {} bytes)", self.path, self.data.len())
+    }
+}
+
+impl tantivy::HasLen for SimFile {
+    fn len(&self) -> usize {
+        self.data.len()
+    }
+}
+
+impl FileHandle for SimFile {
+    fn read_bytes(&self, range: std::ops::Range<usize>) -> io::Result<OwnedBytes> {
+        let r = self.dir.before("read", &self.path);
+        self.dir.push_log(Op::Read { path: self.path.clone() }, r.is_ok());
+        r?;
+        Ok(self.data.slice(range))
+    }
+}
+
 struct SimWriter {
     dir: SimDirectory,
     path: String,
@@ -404,7 +443,9 @@ impl Directory for SimDirectory {
             fs.visible.get(&p).map(|&i| fs.inodes[i].data.clone())
         };
         self.push_log(Op::OpenRead { path: p }, data.is_some());
+        let read_points = self.inner.ctl.lock().unwrap().read_points;
         match data {
+            Some(d) if read_points => Ok(Arc::new(SimFile { dir: self.clone(), path: pstr(path), data: OwnedBytes::new(d) })),
             Some(d) => Ok(Arc::new(OwnedBytes::new(d))),
             None => Err(OpenReadError::FileDoesNotExist(path.to_path_buf())),
         }
